@@ -163,7 +163,7 @@ struct Stats {
 fn check_program(rep: &Reporter, c: &Counters, st: &Stats, prog: &Program, mb: &HashMap<String, Vec<Item>>, cli: bool) {
     let src = render(prog);
     let flat = rp::flatten(prog, mb);
-    let rr = rp::run(&flat, &rp::RunOpts { stdin: vec![], interpreted: false, horizon: 2000 });
+    let rr = rp::run(&flat, &rp::RunOpts { stdin: vec![], interpreted: false, horizon: 2000, dos_0a: false, rep_prompt_per_iteration: false });
     st.programs.fetch_add(1, Ordering::Relaxed);
     match rr.stop {
         rp::Stop::Horizon => {
